@@ -474,3 +474,123 @@ func drawLongListSource(t *rapid.T) (src, entry, form string) {
 		return b.String(), "ParseExpr", form
 	}
 }
+
+// ---- one input per special error site of the parser (messages that ordinary mutants rarely reach) ----
+
+var errorSiteInputs = []string{
+	"SELECT 1 UNION ALL SELECT 2 INTERSECT ALL SELECT 3",
+	"SELECT a,\n b\nFROM t\nUNION DISTINCT (SELECT 1, 2)\nUNION DISTINCT SELECT 3, 4\nUNION ALL SELECT 5, 6",
+	"@{a=1} CREATE TABLE t (a INT64) PRIMARY KEY (a)",
+	"FROM t ORDER BY a", "FROM t LIMIT 1", "SELECT 1 |> FOO x", "WITH a AS (SELECT 1) WITH b", "SELECT 1 UNION SELECT 2",
+	"SELECT * FROM t TABLESAMPLE FOO (1 ROWS)", "SELECT * FROM t TABLESAMPLE BERNOULLI (1 FOO)", "SELECT * FROM a JOIN b FOO", "SELECT * FROM 1",
+	"a IS FOO", "a NOT FOO b", "x IN y", "ANY_VALUE(x HAVING FOO y)", "CAST(1 AS 2)", "SAFE_CAST(1, 2)", "NEW T {a}", "NEW T [", "NEW T {a b}", "ARRAY<INT64>(1)", "STRUCT<INT64>[1]",
+	"`SAFE_CAST`(1 AS INT64)", "`INSERT` INTO t (a) VALUES (1)", "INSERT `INTO` t (a) VALUES (1)", "CAST(1 AS `FOO`<INT64>)",
+	"DROP FOO x", "CREATE FOO", "ALTER FOO", "CREATE OR REPLACE FOO", "FOO", "CREATE VIEW v SQL SECURITY FOO AS SELECT 1",
+	"ALTER TABLE t ADD FOO", "ALTER TABLE t DROP", "ALTER TABLE t ALTER COLUMN c FOO", "ALTER TABLE t FOO", "ALTER TABLE t SET ON DELETE FOO",
+	"ALTER CHANGE STREAM s FOO", "ALTER CHANGE STREAM s SET FOO", "ALTER SEQUENCE s FOO", "ALTER SEQUENCE s SET FOO", "CREATE SEQUENCE s FOO", "CREATE CHANGE STREAM s FOO",
+	"GRANT FOO ON TABLE t TO ROLE r", "GRANT SELECT ON FOO t TO ROLE r", "REVOKE FOO",
+	"CREATE PROPERTY GRAPH g NODE TABLES (t LABEL a FOO)", "CREATE TABLE t (a FOO(1)) PRIMARY KEY (a)", "CREATE TABLE t (a INT64, CONSTRAINT c FOO) PRIMARY KEY (a)",
+	"CREATE TABLE t (a INT64) PRIMARY KEY (a), ROW DELETION POLICY (FOO(a, INTERVAL 1 DAY))", "CREATE INDEX i ON t (a) FOO",
+	"SELECT 1 LIMIT 'x'", "SELECT 1 LIMIT 1 OFFSET x", "SELECT * FROM t TABLESAMPLE RESERVOIR ('x' ROWS)", "SELECT 1 LIMIT CAST(1 AS STRING)",
+	"INSERT OR FOO t (a) VALUES (1)", "INSERT t (a) FOO", "UPDATE t FOO", "DELETE t WHERE TRUE THEN RETURN WITH FOO *", "CALL f(1) FOO",
+	"SELECT EXTRACT(DAY FOO x)", "SELECT x[FOO(1)]", "SELECT INTERVAL 1 FOO BAR", "SELECT IF(1)", "SELECT CASE END", "SELECT (1, ", "SELECT ((SELECT 1",
+}
+
+// errorSiteVariants: each input alone, shifted to another line / column, and after another statement.
+func errorSiteVariants() []string {
+	var out []string
+	for _, s := range errorSiteInputs {
+		out = append(out, s, "\n\n   "+s, "SELECT 1;\n"+s, s+" ;\n"+s)
+	}
+	return out
+}
+
+// farPrefix returns, once in `every` draws, a block of white space / comments / empty statements of 64-140 KiB, so that the
+// input proper starts beyond byte offsets 2^15, 2^16, 2^17 (absolute-offset thresholds, narrow integer types); otherwise "".
+func farPrefix(t *rapid.T, every int, semicolons bool) string {
+	if rapid.IntRange(0, every-1).Draw(t, "far-prefix") != 0 {
+		return ""
+	}
+	n := rapid.SampledFrom([]int{32760, 65530, 65536, 65540, 70000, 131070, 131080}).Draw(t, "far-bytes")
+	kinds := []string{"spaces", "newlines", "comment", "line-comments"}
+	if semicolons {
+		kinds = append(kinds, "statements", "semicolons")
+	}
+	switch rapid.SampledFrom(kinds).Draw(t, "far-kind") {
+	case "spaces":
+		return strings.Repeat(" ", n)
+	case "newlines":
+		return strings.Repeat(" \n", n/2)
+	case "comment":
+		return "/*" + strings.Repeat("x", n) + "*/ "
+	case "line-comments":
+		return strings.Repeat("-- c\n", n/5)
+	case "statements":
+		return strings.Repeat("DELETE FROM t WHERE TRUE;\n", min(n, 66000)/26+1)
+	default:
+		return strings.Repeat(";", min(n, 66000)/8) + strings.Repeat(" ", min(n, 66000)*7/8)
+	}
+}
+
+// ---- exhaustive size sweep: each template with its repeated part at EVERY size 0..sweepMax ----
+//
+// Thresholds (look-ahead windows, caps, chunk sizes, pre-allocated buffers) sit at some token count; a generator that draws
+// sizes from a few boundary values only meets the ones it guessed. The sweep guesses nothing: every template is instantiated
+// with every n in 0..sweepMax. %L = n+1 integers, %F = n+1 struct fields, %T = n+1 pairs, %P = a chain of n "+ 1",
+// %( / %) = n opening / closing parentheses.
+
+const sweepMax = 300
+
+var sweepTemplates = []struct{ entry, text string }{
+	{"ParseExpr", "((SELECT a FROM t JOIN u ON TRUE JOIN v ON TRUE LEFT JOIN w ON TRUE WHERE a IN (%L)) UNION ALL (SELECT 2))"},
+	{"ParseQuery", "SELECT * FROM ((SELECT a FROM t JOIN u USING (a) WHERE a IN (%L)) UNION ALL (SELECT 2)) AS s"},
+	{"ParseExpr", "x IN ((SELECT a FROM t JOIN u ON TRUE WHERE b IN (%L)) INTERSECT ALL (SELECT 1))"},
+	{"ParseExpr", "((SELECT %L) ORDER BY 1)"}, {"ParseExpr", "((SELECT %L FROM t LEFT JOIN u ON TRUE) LIMIT 1)"}, {"ParseExpr", "f((SELECT %L))"}, {"ParseExpr", "(((SELECT %L)))"},
+	{"ParseExpr", "(%L)"}, {"ParseExpr", "[%L]"}, {"ParseExpr", "f(%L)"}, {"ParseExpr", "k IN (%L)"}, {"ParseExpr", "(a, b) IN (%T)"}, {"ParseExpr", "STRUCT(%L)"},
+	{"ParseExpr", "CAST(x AS STRUCT<%F>)"}, {"ParseExpr", "1 %P"}, {"ParseExpr", "%(1%)"}, {"ParseExpr", "%((SELECT 1)%)"}, {"ParseExpr", "a %P IN (%L)"},
+	{"ParseQuery", "SELECT %L FROM t"}, {"ParseQuery", "SELECT 1 FROM t WHERE a IN (%L) ORDER BY b LIMIT 1"}, {"ParseQuery", "WITH a AS (SELECT %L) SELECT * FROM a"},
+	{"ParseQuery", "@{a=1} SELECT %L"}, {"ParseQuery", "SELECT * FROM %(t JOIN u ON TRUE%)"}, {"ParseQuery", "%(SELECT 1%) UNION ALL SELECT 2"}, {"ParseQuery", "SELECT 1 %P FROM t JOIN u ON a %P = 2"},
+	{"ParseDML", "INSERT INTO t (a) VALUES (%L)"}, {"ParseDML", "INSERT INTO t (a, b) VALUES %T"}, {"ParseDML", "UPDATE t SET a = 1 %P WHERE b IN (%L)"},
+	{"ParseDDL", "CREATE TABLE t (%F) PRIMARY KEY (f0)"}, {"ParseDDL", "CREATE INDEX i ON t (f0) STORING (%L2)"}, {"ParseType", "STRUCT<%F>"}, {"ParseType", "%[INT64%]"},
+	{"ParseStatements", "%S"},
+}
+
+func sweepInstance(text string, n int) string {
+	var l, f, tt, p, l2, s strings.Builder
+	for i := 0; i <= n; i++ {
+		if i > 0 {
+			l.WriteString(", ")
+			f.WriteString(", ")
+			tt.WriteString(", ")
+			l2.WriteString(", ")
+			s.WriteString(";\n")
+		}
+		fmt.Fprintf(&l, "%d", i)
+		fmt.Fprintf(&f, "f%d INT64", i)
+		fmt.Fprintf(&tt, "(%d, %d)", i, i+1)
+		fmt.Fprintf(&l2, "c%d", i)
+		fmt.Fprintf(&s, "SELECT %d", i)
+	}
+	for i := 0; i < n; i++ {
+		p.WriteString("+ 1 ")
+	}
+	r := strings.NewReplacer("%L2", l2.String(), "%L", l.String(), "%F", f.String(), "%T", tt.String(), "%P", p.String(), "%S", s.String(),
+		"%(", strings.Repeat("(", n), "%)", strings.Repeat(")", n), "%[", strings.Repeat("ARRAY<", n), "%]", strings.Repeat(">", n))
+	return r.Replace(text)
+}
+
+// forSweep calls f for this shard's share of (template, n).
+func forSweep(ctx *harness.Ctx, f func(entry, src string, n int) bool) {
+	idx := 0
+	for _, tp := range sweepTemplates {
+		for n := 0; n <= sweepMax; n++ {
+			idx++
+			if idx%ctx.Of != ctx.Shard {
+				continue
+			}
+			if !f(tp.entry, sweepInstance(tp.text, n), n) {
+				return
+			}
+		}
+	}
+}
